@@ -123,6 +123,10 @@ func init() {
 		nsp := gridSpec{P1: []int{0}, P2: allP2, P4: []int{3}, P5: []int{2}, SZ: []int{0, 1}, SP: [][2]float64{{4, 8}, {0, 8}}}.list()
 		main = append(main, nsp...)
 		small = append(small, nsp...)
+		// helper nodes made visible: their IDs and coordinates are part of the returned value too
+		virt := gridSpec{P1: []int{0}, P2: allP2, P4: []int{0, 1}, P5: []int{2}, SZ: []int{4}, Virt: []bool{true}}.list()
+		main = append(main, virt...)
+		small = append(small, virt...)
 		reach := func(in Input, a *Analysis) bool { return a.NComp >= 2 || a.SelfLoops >= 2 || a.AntiPar || a.Parallel }
 		d := tierPick(tier, 3, 4)
 		ps := []*Pass{
